@@ -323,6 +323,9 @@ def judge_slices(rep, kind, result, case, shape_tag):
     from valjean.javert import representation as rpr
     from valjean.javert.templates import TableTemplate
     tpls = [t for t in rpr.Representation(rpr.TableRepresenter(), verbosity=Verbosity.FULL_DETAILS)(result) if isinstance(t, TableTemplate)]
+    if tpls and isinstance(tpls[0].columns[0], np.ndarray) and tpls[0].columns[0].ndim > 1:
+        judge_slices_nd(rep, kind, tpls[0], case, shape_tag)
+        return
     if not tpls or not isinstance(tpls[0].columns[0], np.ndarray) or tpls[0].columns[0].ndim != 1:
         return
     tab = tpls[0]
@@ -365,6 +368,70 @@ def judge_slices(rep, kind, result, case, shape_tag):
                 rep.violate(f'C12|join|{kind}|{shape_tag}', 'table joined with itself is not the concatenation of its rows', dict(case, cut='self'))
         except Exception as exc:  # pylint: disable=broad-except
             rep.violate(f'C12|join-raises|{type(exc).__name__}|{kind}', f'join of a table with its copy raised {exc!r}', dict(case, cut='self'))
+
+
+def judge_slices_nd(rep, kind, tab, case, shape_tag):
+    """Tables whose columns are N-d arrays (one row per cell of a multi-dimensional dataset).  The order of the rows is not
+    part of the property (it follows the memory layout), so tables are compared as multisets of rows (cells + marks)."""
+    def rows_of(tpl):
+        msgs, tabs, _ = parse_rst(render([tpl]))
+        if msgs or not tabs:
+            return None
+        return sorted(map(tuple, tabs[0][1:]))
+
+    base = rows_of(tab)
+    if base is None:
+        return
+    shape = tab.columns[0].shape
+    ncol = len(tab.columns)
+    # reference per cell: (cells, marks) rendered from a one-cell table cut out with plain indexing of columns AND highlights
+    from valjean.javert.templates import TableTemplate
+
+    def cell_rows(index_iter):
+        out = []
+        for idx in index_iter:
+            one = TableTemplate(*[np.atleast_1d(col[idx]) for col in tab.columns], headers=list(tab.headers), units=list(tab.units),
+                                highlights=[np.atleast_1d(np.asarray(hil)[idx]) for hil in tab.highlights])
+            got = rows_of(one)
+            out.extend(got or [('unrenderable',) * ncol])
+        return sorted(out)
+
+    every = list(itertools.product(*[range(n) for n in shape]))
+    if cell_rows(every) != base:
+        return      # the table itself is judged by the per-bin clauses; without a trusted base nothing is compared here
+    ops = []        # copy() alone is not in the statement; a wrong copy shows through copy.join(copy) below
+    for low, high in itertools.product(range(shape[0] + 1), repeat=2):
+        if low < high:
+            ops.append((f'[{low}:{high}]', lambda low=low, high=high: tab[low:high], [i for i in every if low <= i[0] < high]))
+    if len(shape) > 1:
+        for low, high in itertools.product(range(shape[1] + 1), repeat=2):
+            if low < high and (low, high) != (0, shape[1]):
+                ops.append((f'[:, {low}:{high}]', lambda low=low, high=high: tab[:, low:high], [i for i in every if low <= i[1] < high]))
+
+    def joined(parts):
+        left = parts[0]
+        left.join(*parts[1:])
+        return left
+    ops.append(('copy.join(copy)', lambda: joined([tab.copy(), tab.copy()]), every + every))
+    ops.append(('copy.join(original)', lambda: joined([tab.copy(), tab]), every + every))
+    for cut in range(1, shape[0]):
+        ops.append((f'[:{cut}].join([{cut}:])', lambda cut=cut: joined([tab[0:cut], tab[cut:shape[0]]]), every))
+    for name, func, cells in ops:
+        ccase = dict(case, operation=name)
+        clause = 'join' if 'join' in name else ('copy' if name == 'copy' else 'slice')
+        try:
+            got = rows_of(func())
+        except Exception as exc:  # pylint: disable=broad-except
+            rep.violate(f'C12|{clause}-raises|{type(exc).__name__}|{kind}|nd', f'table{name} raised {exc!r}', ccase)
+            continue
+        rep.case(nontrivial=(repr(case), 'nd', name), outcome=(clause + '-nd', kind))
+        exp = cell_rows(cells)
+        if got != exp:
+            diff = [r for r in (got or []) if r not in exp][:2]
+            rep.violate(f'C12|{clause}|{kind}|{shape_tag}|nd', f'table{name} of a table with {len(shape)}-d columns: rows (cells, marked) {diff} are not '
+                        f'rows of the original table (expected the rows of cells {cells[:4]}...)', ccase, size=len(cells))
+    if rows_of(tab) != base:
+        rep.violate(f'C12|source-modified|{kind}|{shape_tag}|nd', 'copying / slicing / joining changed the original table', case)
 
 
 # ------------------------------------------------------------------ jobs
@@ -422,7 +489,7 @@ def job_dataset(args):
             rep.violate(f'HARNESS|build|{type(exc).__name__}', repr(exc), case)
             continue
         judge_dataset(rep, kind, result, case, tag)
-        if kind in ('equal', 'approx', 'student') and len(shape) == 1:
+        if kind in ('equal', 'approx', 'student') and len(shape) >= 1:
             judge_slices(rep, kind, result, case, tag)
     rep.sample({'kind': kind, 'case': chunk[len(chunk) // 2]})
     return rep
